@@ -21,7 +21,7 @@ from ..driver import Finding, Outcome
 ID = 'C07'
 LEVEL = 'exploration'
 TECHNIQUE = 'property-based testing (Hypothesis): grammar-generated expressions vs exact rational reference ' \
-            'evaluator; token-mutation fuzzing vs independent recogniser; API + CLI layers'
+            'evaluator; token-mutation fuzzing vs independent recogniser; API + CLI layers; metamorphic relation (computed operand vs the plain number it equals) where no value is fixed; exhaustive enumeration of quoted-character literal pairs in every statement position; atheris/libFuzzer campaign with the oracle in the target'
 RULE = ('Expressions are drawn recursively from the grammar (depth<=5, 7 literal notations, labels, 10 binary '
         'operators, unary minus, BYTE0..9/LSB, redundant parentheses, 4 spacing styles) and rendered with minimal '
         'parentheses. Non-trivial = the expression has operators from >=2 precedence levels, or a same-level '
